@@ -753,6 +753,7 @@ func selfTest(args []string, get func(string) *Check, ids func() []string) int {
 			continue
 		}
 		hashes := map[uint64]map[string]string{}
+		logs := map[uint64]map[string][]string{}
 		for _, cfg := range []struct {
 			procs   string
 			workers int
@@ -760,7 +761,7 @@ func selfTest(args []string, get func(string) *Check, ids func() []string) int {
 			pool := NewPool(cfg.workers, []string{"GOMAXPROCS=" + cfg.procs})
 			reqs := []Request{}
 			for i := 0; i < n; i++ {
-				reqs = append(reqs, Request{Prop: id, Tier: "quick", Seed: SplitMix(uint64(seed), uint64(i))})
+				reqs = append(reqs, Request{Prop: id, Tier: "quick", Seed: SplitMix(uint64(seed), uint64(i)), KeepLog: true})
 			}
 			outs := pool.DoAll(reqs)
 			pool.Close()
@@ -773,6 +774,10 @@ func selfTest(args []string, get func(string) *Check, ids func() []string) int {
 					h = "CRASH:" + crashSignature(o.Crashed)
 				}
 				hashes[o.Seed]["P"+cfg.procs] = h
+				if logs[o.Seed] == nil {
+					logs[o.Seed] = map[string][]string{}
+				}
+				logs[o.Seed]["P"+cfg.procs] = o.Log
 			}
 		}
 		diverged := 0
@@ -784,6 +789,10 @@ func selfTest(args []string, get func(string) *Check, ids func() []string) int {
 			if len(set) > 1 {
 				diverged++
 				fmt.Printf("SELFTEST %s seed %d diverged: %v\n", id, s, m)
+				// keep the event logs of the diverging configurations for triage
+				for cfgName, lg := range logs[s] {
+					os.WriteFile(filepath.Join(os.TempDir(), fmt.Sprintf("selftest-%s-%d-%s.log", id, s, cfgName)), []byte(strings.Join(lg, "\n")+"\n"), 0o644)
+				}
 			}
 		}
 		if c.MapOrderSensitive {
